@@ -4,6 +4,7 @@
 
     EF <record>            →  EventPack.Write's attribute folding (Packs.Event.fold): the table as on the wire
     EU <record>            →  EventPack.Read's unfolding (Packs.Event.unfold) of a wire table
+    CE <hex>               →  pack tree: decode (as C), re-encode by the writer layouts (encodeTree): same | differs <hex> | n/a
     R                      →  the factory as regenerated: code:Type,…  (Gen.Packs.registry)
     K                      →  the bounded tables: Type:field:limit,…  (Packs.expectedCaps: the model's statement; C03Gen.caps_as_recorded ties the constructors to it)
     DK <Type> <hex>        →  like D, then the bounded table keeps its last `limit` rows (Packs.capRows)
@@ -20,6 +21,7 @@
     list,n,… | ai,n,… | af,n,… | at,n,… | al,n,… | map,n,(hexkey,value)… | imap,n,(key,value)…
 -/
 import Golib.Layout.IR
+import Golib.Layout.Reencode
 import Golib.Packs.Hand
 import Golib.Packs.Irregular
 import Golib.Packs.Event
@@ -209,6 +211,25 @@ def factory : Packs.Factory := fun code =>
   | some ty => (table.get? ty).map (·.2)
   | none => none
 
+/-- the writer layout of a registered type code -/
+def writerOf (code : Int) : Option L :=
+  match Gen.Packs.registry.lookup code with
+  | some ty => (table.get? ty).map (·.1)
+  | none => none
+
+/-- the model's ENCODING of a decoded pack tree: every leaf re-encoded from its carried fields by the
+    WRITER layout of its type (`L.encodeOut`, the function of `C03.pack_reencode`), a composite node as
+    tag, header, 16-bit count, children (`Packs.writePT`).  `none`: a leaf whose writer is not `known`. -/
+partial def encodeTree : Packs.CT → Option Bytes
+  | .leaf code o => do
+    let w ← writerOf code
+    if !w.known then none
+    let (bs, rest) ← w.encodeOut (fun _ => 0) o
+    if rest.isEmpty then pure (Prim.encI 2 code ++ bs) else none
+  | .comp h kids => do
+    let ks ← kids.mapM encodeTree
+    pure (Prim.encI 2 Packs.compositeCode ++ encHeader h ++ Prim.encI 2 kids.length ++ ks.flatten)
+
 partial def showTree (pfx : String) : Packs.CT → Out
   | .leaf code o => (pfx ++ "!", Val.int code) :: o.map (fun (k, v) => (pfx ++ "." ++ k, v))
   | .comp h kids =>
@@ -273,6 +294,16 @@ def answer (line : String) : String :=
     | some bs =>
       match Packs.readPT factory 8 bs with
       | some (t, rest) => s!"ok {showOut (showTree "" t)} {rest.length}"
+      | none => "fail"
+    | none => "bad-hex"
+  | ["CE", hex] =>
+    match ofHex hex with
+    | some bs =>
+      match Packs.readPT factory 8 bs with
+      | some (t, _) =>
+        match encodeTree t with
+        | some out => if out == bs then "same" else s!"differs {hexOf out}"
+        | none => "n/a"
       | none => "fail"
     | none => "bad-hex"
   | ["R"] => ",".intercalate (Gen.Packs.registry.map (fun (c, t) => s!"{c}:{t}"))
